@@ -1,4 +1,12 @@
+pub mod c01;
 pub mod c02;
+pub mod c05;
+pub mod c06;
+pub mod c07;
+pub mod c08;
+pub mod c13;
+pub mod c18;
+pub mod c14;
 
 use lipe_find_parser::ast::{Action, Expression, Test};
 
